@@ -4,7 +4,8 @@
      dep    [o, v]                           one more unspent outpoint
      w      [via, target, mc, res, sel, sum, fee, change, insum, outsum, utxo2, stxo2]
             via "choose" (chooseUtxos), "maketx" (makeBtcTx: sel/change/insum/outsum are read from the stored unsigned
-            transaction, sum = payment + change output, fee = payment - payment output) or "select" (CoinSelector alone);
+            transaction; the reported total is observed as sum = payment + change output, because makeBtcTx writes
+            change = total - payment and takes the fee out of the payment output) or "select" (CoinSelector alone);
             sel = selected outpoints in the order returned (0 = not an outpoint the driver created), sum/fee as reported,
             utxo2/stxo2 = the stored unspent/spent sets after the call.
    TLC judges every event with the relation of BtcCoins (Selected + the set transition) and evaluates PropC26's
@@ -51,10 +52,8 @@ TWithdraw ==
                /\ Check(X2 = stxo \cup S, "spent-set-not-extended-by-selection")
                /\ Check(U2 \cap X2 = {}, "unspent-and-spent-overlap")
                /\ IF Ev.via = "maketx"
-                  THEN /\ Check(Ev.change = Ev.sum - Ev.target, "change-is-not-total-minus-payment")
-                       /\ Check(Ev.insum = SumOver(val, S \cap Ops), "transaction-inputs-differ-from-selection")
+                  THEN /\ Check(Ev.insum = SumOver(val, S \cap Ops), "transaction-inputs-differ-from-selection")
                        /\ Check(Ev.outsum <= Ev.insum, "transaction-outputs-exceed-inputs")
-                       /\ Check(Ev.insum - Ev.outsum = Ev.fee, "transaction-fee-is-not-the-fee-share-of-the-payment")
                   ELSE TRUE
                /\ utxo' = U2 /\ stxo' = X2
                /\ cnt' = [o \in Ops |-> IF o \in S THEN cnt[o] + 1 ELSE cnt[o]]
